@@ -406,7 +406,62 @@ def inline_helpers(tree, modname, ref, rounds=3):
         _drop_dead_helpers(tree, modname, known)
         _drop_identity_assignments(tree)
         _flatten_starred(tree)
+        operator_calls(tree)
     return total
+
+
+_OPERATOR = {"lt": ast.Lt, "gt": ast.Gt, "le": ast.LtE, "ge": ast.GtE,
+             "eq": ast.Eq, "ne": ast.NotEq, "is_": ast.Is,
+             "is_not": ast.IsNot, "add": ast.Add, "sub": ast.Sub,
+             "mul": ast.Mult, "and_": ast.BitAnd, "or_": ast.BitOr,
+             "xor": ast.BitXor, "lshift": ast.LShift, "rshift": ast.RShift,
+             "floordiv": ast.FloorDiv, "truediv": ast.Div, "mod": ast.Mod}
+
+
+def operator_calls(tree):
+    """`lt(a, b)` / `operator.lt(a, b)` -> `a < b`"""
+    names = {}
+    mods = set()
+    for st in tree.body:
+        if isinstance(st, ast.ImportFrom) and st.module == "operator":
+            for a in st.names:
+                if a.name in _OPERATOR:
+                    names[a.asname or a.name] = a.name
+        elif isinstance(st, ast.Import):
+            for a in st.names:
+                if a.name == "operator":
+                    mods.add(a.asname or "operator")
+    if not names and not mods:
+        return 0
+    n = 0
+
+    class T(ast.NodeTransformer):
+        def visit_Call(self, node):
+            nonlocal n
+            self.generic_visit(node)
+            f = node.func
+            op = None
+            if isinstance(f, ast.Name) and f.id in names:
+                op = names[f.id]
+            elif isinstance(f, ast.Attribute) and isinstance(
+                    f.value, ast.Name) and f.value.id in mods and \
+                    f.attr in _OPERATOR:
+                op = f.attr
+            if op is None or len(node.args) != 2 or node.keywords:
+                return node
+            cls = _OPERATOR[op]
+            n += 1
+            if issubclass(cls, ast.cmpop):
+                new = ast.Compare(left=node.args[0], ops=[cls()],
+                                  comparators=[node.args[1]])
+            else:
+                new = ast.BinOp(left=node.args[0], op=cls(),
+                                right=node.args[1])
+            return ast.copy_location(new, node)
+    T().visit(tree)
+    if n:
+        ast.fix_missing_locations(tree)
+    return n
 
 
 def _flatten_starred(tree):
@@ -535,6 +590,24 @@ def _single_exit(stmts, target):
         out.append(ast.If(test=st.test, body=a or [ast.Pass()], orelse=b))
         return out
     return out
+
+
+def _loop_exit(stmts, target):
+    """`while True: A; return E` (the only return, last statement of the
+    loop body) -> `while True: A; target = E; break`"""
+    if len(stmts) != 1 or not isinstance(stmts[0], ast.While) or not (
+            isinstance(stmts[0].test, ast.Constant)
+            and stmts[0].test.value is True) or stmts[0].orelse:
+        return None
+    lp = stmts[0]
+    rets = [x for x in ast.walk(lp) if isinstance(x, ast.Return)]
+    brks = [x for x in ast.walk(lp) if isinstance(x, ast.Break)]
+    if len(rets) != 1 or brks or lp.body[-1] is not rets[0] or \
+            rets[0].value is None:
+        return None
+    lp.body[-1:] = [ast.Assign(targets=[_clone(target)],
+                               value=rets[0].value), ast.Break()]
+    return [lp]
 
 
 def _functions_with_owner(tree):
@@ -777,6 +850,21 @@ def _inline_in_function(func, owner, classes, modfuncs, known):
         if r is None:
             return None
         h, is_m = r
+        if kind == "return" and not awaited and _is_generator(h) and \
+                not _is_generator(func) and len(_body_no_doc(func)) == 1 \
+                and isinstance(h, ast.FunctionDef) == isinstance(
+                    func, ast.FunctionDef):
+            # `def f(..): return self._h(..)` with a generator-based helper
+            # (a @contextmanager): f becomes that generator itself
+            pb = _prepare_body(h, call, is_m)
+            if pb is not None:
+                have = _decorators(func)
+                for d in h.decorator_list:
+                    nm = ast.unparse(d).split("(")[0].split(".")[-1]
+                    if nm not in have and nm not in ("staticmethod",
+                                                     "classmethod"):
+                        func.decorator_list.append(_clone(d))
+                return pb[0] + pb[1]
         if _is_generator(h) or "contextmanager" in _decorators(h) or \
                 "asynccontextmanager" in _decorators(h):
             return None
@@ -802,6 +890,8 @@ def _inline_in_function(func, owner, classes, modfuncs, known):
             if kind != "assign":
                 return None
             conv = _single_exit(body, st.targets[0])
+            if conv is None:
+                conv = _loop_exit(body, st.targets[0])
             if conv is None:
                 return None
             for b_ in conv:
